@@ -24,6 +24,8 @@ def memcpy_hook(exe, st, node, args):
     exe.assumed.add('libc memcpy/memmove: typed element copy of n*sizeof(T) bytes; regions do not overlap for memcpy')
     exe._check_deref(dst, st, node)
     exe._check_deref(src, st, node)
+    if exe.contracts.get('__blob_memcpy__') and _is_blob_copy(exe, dst, src):
+        return _memcpy_blob(exe, st, node, dst, src, nbytes)
     if isinstance(exe.leaf_type(dst.obj, dst.path), TStruct) or isinstance(dst.ct, TStruct):
         return _memcpy_structs(exe, st, node, dst, src, nbytes)
     d, dt = _elem_ptr(exe, dst)
@@ -43,6 +45,117 @@ def memcpy_hook(exe, st, node, args):
     n = simp(n)
     copy_elems(exe, st, d, s, n, node)
     return dst
+
+
+def _is_byte_buffer(exe, p):
+    if p.obj is None or p.obj is RAW or p.path:
+        return False
+    ct = p.obj.ct
+    return isinstance(ct, TInt) and ct.width == 8 and p.obj.n is None
+
+
+def _is_blob_copy(exe, dst, src):
+    """serialisation copies: exactly one side is a flat byte buffer, the other a typed object."""
+    if dst.obj is None or src.obj is None or dst.obj is RAW or src.obj is RAW:
+        return False
+    return _is_byte_buffer(exe, dst) != _is_byte_buffer(exe, src)
+
+
+def bytes_available(exe, p):
+    """(byte offset of p inside its innermost array or field, number of bytes from p to the end of it) as terms."""
+    sem = exe.sem
+    ix = exe._ix
+    obj = p.obj
+    if obj.n is None and not p.path:
+        if obj.length is None:
+            raise FrontEndError('byte copy into/from %s whose length the contract does not declare' % obj.name)
+        sz = exe.tu.sizeof(obj.ct)
+        ln = obj.length if not isinstance(obj.length, int) else sem.idx_const(obj.length)
+        return simp(ix(p.idx[0]) * sz), simp((ln - ix(p.idx[0])) * sz)
+    # a field of a struct object, or a local: the sub-object p designates
+    ct = p.ct
+    dims = exe.dims_of(obj, p.path)
+    if len(p.idx) == len(dims) and len(dims) >= 2 and dims[-1] is not None and not isinstance(exe.type_at(obj, p.path), (TStruct,)) \
+            and isinstance(_strip_to(exe.type_at(obj, p.path), len(dims) - 2), TArr):
+        # pointer to element k of an embedded / local array: the rest of that array
+        lt = exe.leaf_type(obj, p.path)
+        sz = exe.tu.sizeof(lt)
+        return simp(ix(p.idx[-1]) * sz), simp((sem.idx_const(dims[-1]) - ix(p.idx[-1])) * sz)
+    if isinstance(ct, TVoid):
+        ct = exe.type_at(obj, p.path)
+    return sem.idx_const(0), sem.idx_const(exe.tu.sizeof(ct))
+
+
+def _strip_to(ct, k):
+    for _ in range(k):
+        if isinstance(ct, TArr):
+            ct = ct.of
+    return ct
+
+
+def _memcpy_blob(exe, st, node, dst, src, nbytes):
+    """memcpy between a flat byte buffer and a typed object (serialisation). The bytes are not modelled: the destination
+    range is havocked.  What is proved: both ranges lie inside their objects.  What is recorded: one event per copy
+    (buffer offset, byte count, designator of the typed side), from which the save/load mirror obligations are built."""
+    exe.assumed.add('libc memcpy between a byte buffer and a typed object: an exact byte copy (contents not modelled: destination havocked)')
+    sem = exe.sem
+    where = exe._loc(node)
+    fn = exe.fn_stack[-1]
+    caller = exe.fn_stack[-2] if len(exe.fn_stack) > 1 else fn
+    zero = sem.idx_const(0)
+    from .cexpr import narrow_idx
+    nb = narrow_idx(exe, nbytes) if sem.int_mode != 'bv' else nbytes
+    offs = {}
+    k = st.ghost.get('$blobn', 0)
+    for p, nm in ((dst, 'dst'), (src, 'src')):
+        off, avail = bytes_available(exe, p)
+        offs[nm] = off
+        exe.emit('%s/blob_copy_in_bounds(%s:%s)#%d@%s' % (caller, nm, _desc(p), k, where),
+                 z3.And(nb >= 0, off >= 0, nb <= avail), st, kind='bounds')
+    typed, buf = (src, dst) if _is_byte_buffer(exe, dst) else (dst, src)
+    ev = {'dir': 'write' if buf is dst else 'read', 'field': _desc(typed), 'typed_off': offs['src' if typed is src else 'dst'],
+          'buf': buf.obj.name, 'buf_off': offs['dst' if buf is dst else 'src'], 'nbytes': nb, 'where': where}
+    st.ghost['$blob'] = st.ghost.get('$blob', ()) + (ev,)
+    st.ghost['$blobn'] = k + 1
+    # effect: forget the destination range
+    if buf is dst:
+        exe.on_store(dst, None, st)
+        old = st.array_term(dst.obj, dst.path)
+        new = exe.fresh_array(dst.obj, dst.path, 'blob')
+        q = z3.FreshConst(sem.idx_sort(), 'k')
+        lo = exe._ix(dst.idx[0])
+        st.set_array(dst.obj, dst.path, new)
+        if not exe.contracts.get('__blob_forget_all__'):
+            st.assume(z3.ForAll([q], z3.Implies(z3.Or(q < lo, q >= lo + nb), z3.Select(new, q) == z3.Select(old, q)), patterns=[z3.Select(new, q)]))
+        return dst
+    _havoc_typed(exe, st, typed, nb)
+    return dst
+
+
+def _desc(p):
+    return p.obj.name + ''.join('.' + x for x in p.path)
+
+
+def _havoc_typed(exe, st, p, nb):
+    """forget the typed object range a blob copy writes: the whole field / struct / local array, or the element range."""
+    from .cexpr import _paths_of
+    obj = p.obj
+    sem = exe.sem
+    if obj.n is None and not p.path and not isinstance(obj.ct, TStruct):
+        exe.on_store(p, None, st)
+        old = st.array_term(obj, ())
+        new = exe.fresh_array(obj, (), 'blob')
+        q = z3.FreshConst(sem.idx_sort(), 'k')
+        lo = exe._ix(p.idx[0])
+        sz = exe.tu.sizeof(obj.ct)
+        st.set_array(obj, (), new)
+        if not exe.contracts.get('__blob_forget_all__'):
+            # (forgetting the rest of the array as well is a sound over-approximation, used where nothing depends on it)
+            st.assume(z3.ForAll([q], z3.Implies(z3.Or(q < lo, q * sz >= lo * sz + nb), z3.Select(new, q) == z3.Select(old, q)), patterns=[z3.Select(new, q)]))
+        return
+    for fpath in _paths_of(exe, obj, p.path):
+        exe.on_store(p.with_(path=fpath), None, st)
+        exe.flow._havoc_one(st, obj, fpath, 'blob')
 
 
 def _memcpy_structs(exe, st, node, dst, src, nbytes):
